@@ -1,5 +1,7 @@
 """Called by ./check when harness/main.py died with an exit status other than 0/1 (e.g. the interpreter crashed while
-driving the code under test): report it as a broken correspondence."""
+driving the code under test): report it as a broken correspondence - and report, with their concrete replays, the failures the check had
+already observed (and written through, core.Ctx.fail) before the crash, unless known_findings.json lists them."""
+import glob
 import json
 import os
 import sys
@@ -11,12 +13,38 @@ def main():
     rc, args = sys.argv[1], sys.argv[2:]
     pid = next((a for a in args if a.startswith("C") and a[1:].isdigit()), "C00")
     os.makedirs(core.REPLAYS, exist_ok=True)
+    known = {k["key"]: k for k in core.load_known() if k["property"] == pid and k.get("status") == "known"}
+    n, seen = 0, set()
+    for pf in sorted(glob.glob(os.path.join(core.REPLAYS, "%s-partial-*.jsonl" % pid)), key=os.path.getmtime)[-1:]:
+        for line in open(pf):
+            try:
+                f = json.loads(line)
+            except ValueError:
+                continue
+            if f["key"] in seen:
+                continue
+            seen.add(f["key"])
+            if f["key"] in known:
+                print("KNOWN-FINDING: property=%s %s" % (pid, known[f["key"]]["what"]))
+                continue
+            n += 1
+            rp = os.path.join(core.REPLAYS, "%s-%d.json" % (pid, n))
+            with open(rp, "w") as out:
+                json.dump({"property": pid, "kind": "failing-input", "key": f["key"], "what": f["what"], "seed": f.get("seed"), "tier": f.get("tier"),
+                           "replay": f["replay"], "note": "observed before the checker process died with exit status %s" % rc}, out, indent=1)
+            print("VIOLATION property=%s replay=%s" % (pid, rp))
+    for pf in glob.glob(os.path.join(core.REPLAYS, "%s-partial-*.jsonl" % pid)):
+        try:
+            os.remove(pf)
+        except OSError:
+            pass
     rp = os.path.join(core.REPLAYS, "%s-broken.json" % pid)
     with open(rp, "w") as f:
         json.dump({"property": pid, "kind": "no-failing-input-found",
                    "no_longer_checks": [{"what": "the checker process died with exit status %s while exercising %s" % (rc, core.REPO_SRC),
                                          "detail": "arguments: %r" % (args,)}]}, f, indent=1)
-    print("VIOLATION property=%s replay=%s no-failing-input-found" % (pid, rp))
+    if n == 0:
+        print("VIOLATION property=%s replay=%s no-failing-input-found" % (pid, rp))
 
 
 main()
